@@ -1,4 +1,87 @@
-From Coq Require Import NArith List.
-From FF Require Import Lib.Word Gen.Consts_mm_vmm Vmm.Pt Vmm.PtProofs.
+(** Non-vacuity of the C04 theorems and concrete runs of the model. *)
+From Coq Require Import NArith List Lia Bool.
+From FF Require Import Lib.Word Gen.Consts_mm_vmm Vmm.Pt Vmm.PtArith Vmm.PtTree Vmm.PtMap Vmm.PtOps Vmm.PtTheorems Vmm.PtInit Vmm.PtPdt Vmm.PtTemp.
 Import ListNotations.
 Local Open Scope N_scope.
+
+Definition LO : N := 0x200000000.
+Definition boot : st := init_state LO 16 0 [LO + 1; LO + 2; LO + 3; 0; LO + 4].
+
+(** the boot state of every generated case satisfies the invariant of all the per-operation theorems *)
+Example C04_inv_nonvacuous : Inv boot LO LO (own_root LO).
+Proof.
+  apply Inv_init.
+  - reflexivity.
+  - unfold LO. change (2 ^ 40) with 1099511627776. lia.
+  - unfold ofr, LO. cbn. repeat constructor; cbn; intuition discriminate.
+  - intros f Hin Hz. unfold LO in *. cbn in Hin. intuition (subst; try lia).
+Qed.
+
+Example C04_map_ok_nonvacuous :
+  Inv boot LO LO (own_root LO) /\ hw_idx 0x1234 0 <> 511 /\ zero_guard boot 0x777 3 = false.
+Proof. split; [exact C04_inv_nonvacuous|]. split; [vm_compute; discriminate | reflexivity]. Qed.
+
+(** Map(0x1234, 0x777, P|RW) on the boot state takes three frames for the new tables, writes 0x777003 *)
+Example C04_map_run :
+  match map_page 0x1234 0x777 3 boot with
+  | Ok (s', err) => err = 0 /\ aspace s' LO 0x1234 = Some 0x777003 /\ orc s' = [0; LO + 4] /\ flog s' = [0x1234000] /\
+                    translation s' LO 0x1234 = Some (0x777, 3) /\ translation s' LO 0x1235 = None /\
+                    translate 0x1234abc s' = Ok (0, 0x777abc)
+  | Stray => False
+  end.
+Proof. vm_compute. repeat split; reflexivity. Qed.
+
+(** allocator failure at the 4th call: a second Map that needs a new table fails and changes nothing *)
+Example C04_alloc_failure_run :
+  match map_page 0x1234 0x777 3 boot with
+  | Ok (s1, _) =>
+      match map_page 0x40000000 0x888 3 s1 with
+      | Ok (s2, err) => err = E_ALLOC /\ translation s2 LO 0x40000000 = None /\ translation s2 LO 0x1234 = Some (0x777, 3)
+      | Stray => False
+      end
+  | Stray => False
+  end.
+Proof. vm_compute. repeat split; reflexivity. Qed.
+
+(** outside the domain: a frame with bits above 2^40 spills into the flag bits (SetFrame ors it in) *)
+Example C04_frame_domain_needed :
+  hw_frame (set_flags (set_frame 0 (2 ^ 40 + 5)) 3) = 5 /\ N.testbit (set_flags (set_frame 0 (2 ^ 40 + 5)) 3) 52 = true.
+Proof. vm_compute. split; reflexivity. Qed.
+
+Example C04_recursive_entry_nonvacuous :
+  N.shiftr (cr3 boot) 12 = LO /\ Rec boot LO LO /\ follow boot LO (firstn 0 (ixs (N.shiftr 0x1234000 12))) = Some LO /\
+  resolve boot (walk_entry_addr 0x1234000 0) = Some (LO, 0).
+Proof.
+  split; [reflexivity|]. split; [exact (inv_rec _ _ _ _ C04_inv_nonvacuous)|]. split; [reflexivity|].
+  vm_compute. reflexivity.
+Qed.
+
+(** an inactive address space exists: PageDirectoryTable.Init of frame LO+15 on the boot state *)
+Example C04_inv2_nonvacuous :
+  exists s' own1, pdt_init 0 (LO + 15) boot = Ok (s', 0) /\ Inv2 s' LO (LO + 15) own1 (own_root (LO + 15)) /\ pdts s' 0 = LO + 15.
+Proof.
+  destruct (pdt_init_spec boot LO (own_root LO) 0 (LO + 15) C04_inv_nonvacuous) as
+      (s' & err & own1 & Hrun & _ & Hp & _ & _ & _ & _ & _ & _ & _ & _ & _ & Hok & _).
+  - reflexivity.
+  - reflexivity.
+  - reflexivity.
+  - unfold LO. cbn. intuition discriminate.
+  - assert (E: match pdt_init 0 (LO + 15) boot with Ok (_, e) => e | Stray => 1 end = 0) by (vm_compute; reflexivity).
+    rewrite Hrun in E. subst err. destruct (Hok eq_refl) as (HI2 & _).
+    exists s', own1. split; [exact Hrun|]. split; assumption.
+Qed.
+
+(** ... and PageDirectoryTable.Map on it leaves the active root bit-for-bit unchanged *)
+Definition boot2 : st := init_state LO 16 0 [LO + 1; LO + 2; LO + 3; LO + 4; LO + 5; LO + 6; LO + 7].
+
+Example C04_pdt_inactive_run :
+  match pdt_init 0 (LO + 15) boot2 with
+  | Ok (s1, _) =>
+      match pdt_map 0 0x1234 0x777 3 s1 with
+      | Ok (s2, err) => err = 0 /\ translation s2 (LO + 15) 0x1234 = Some (0x777, 3) /\ translation s2 LO 0x1234 = None /\
+                        ent s2 LO 511 = ent boot2 LO 511 /\ length (flog s2) = 5%nat
+      | Stray => False
+      end
+  | Stray => False
+  end.
+Proof. vm_compute. repeat split; reflexivity. Qed.
